@@ -90,11 +90,14 @@ def do_op(ctx, op, role, node, radio, clock, x, lvl, step, n):
     raise AssertionError(op)
 
 
-def h_history(ctx, role, lvl, ops, n, ack_arrives):
+def h_history(ctx, role, lvl, ops, n, ack_arrives, link="per-packet"):
     clock = fresh_env(ctx, tick_ns=5_000_000)
     clock.max_looks = 20000
     radio, node, x = build_node(ctx, clock, role, lvl)
-    link, outcome = per_packet_link(ctx, radio)
+    if link == "outage":  # every packet is acknowledged only after an outage of symbolic length (re-sent from the TX FIFO meanwhile)
+        link, outcome = outage_link(ctx, radio, clock, (0, 20, 60, None))
+    else:
+        link, outcome = per_packet_link(ctx, radio)
     inject_at = ctx.int("ack_at_look", 0, 30) if ack_arrives else None
     base = {"looks": 0}
 
@@ -150,6 +153,11 @@ def jobs(tier):
     out.append(Job("single-call", h_history, dict(role="mesh", lvl=4, ops=["renew_none"], n=0, ack_arrives=False), cost=30))
     out.append(Job("single-call", h_history, dict(role="master", lvl=0, ops=["update"], n=10, ack_arrives=False), cost=30, shards=6))
     out.append(Job("single-call", h_history, dict(role="master", lvl=0, ops=["multicast"], n=25, ack_arrives=False), cost=10))
+    for lvl, op, n in (((1, "write_parent", 49), (2, "write_desc", 25), (1, "write_child", 0)) if tier == "quick" else
+                       [(l, o, n) for l in (1, 2, 3) for o in ("write_parent", "write_child", "write_desc", "write_other") for n in (0, 49, 72)
+                        if not (o == "write_desc" and l == 3)]):
+        out.append(Job("single-call-through-outages", h_history, dict(role="net", lvl=lvl, ops=[op], n=n, ack_arrives=False, link="outage"),
+                       cost=40, shards=4))
     pairs = [("multicast", "write_child"), ("node_address", "write_parent"), ("multicast_level", "multicast"),
              ("write_self", "multicast_level"), ("multicast_level", "write_parent"), ("write_parent", "node_address"),
              ("multicast_level", "node_address"), ("node_address", "multicast_level"), ("node_address", "node_address")]
@@ -172,7 +180,8 @@ META = {
                "thorough": "levels 0..4, 51 two-call histories of a network node"},
     "outside": ["histories deeper than 2", "renew_address() with responders (co-simulated in C17, which asserts the same "
                 "post-condition)", "timing jitter: the clock tick is a constant 5 ms"],
-    "assumptions": ["one outcome per transmitted packet (all its automatic and forced retries share it)",
+    "assumptions": ["one outcome per transmitted packet (all its automatic and forced retries share it), or - in the 'through outages' "
+                    "obligations - acknowledged only after a symbolic outage of 0 / 20 / 60 ms / for ever counted from its first attempt",
                     "reference addresses specs/net_spec.phys / level_addr with the default prefix/suffix bytes"],
 }
 
